@@ -10,6 +10,7 @@ var Registry = map[string]func(*core.Run){
 	"C06": C06,
 	"C10": C10,
 	"C11": C11,
+	"C12": C12,
 	"C14": C14,
 	"C16": C16,
 	"C04": C04,
